@@ -112,6 +112,40 @@ func runC10(tier string) int {
 }
 
 func runC07(tier string) int {
-	fmt.Println("INFRA: C07 not built yet")
-	return 2
+	quick := tier == "quick"
+	col := ev.NewCollector("C07", tier, "exploration")
+	dl := ev.NewDeadline(ev.EnvDur("VERIF_BUDGET", map[bool]time.Duration{true: 150 * time.Second, false: 20 * time.Minute}[quick]))
+	engines := []string{"mem-skiplist", "pebble"}
+	maxLen := 3
+	if quick {
+		maxLen = 2
+	}
+	logs, runs := 0, 0
+	exhaustive := true
+	per := map[string]interface{}{}
+	for _, p := range []struct {
+		name string
+		p    common.ExpirationPolicy
+		v    common.DataVersionT
+	}{{"wait_compact", common.WaitCompact, common.ValueHeaderV1}, {"local_deletion", common.LocalDeletion, common.DefaultDataVer}} {
+		t0 := time.Now()
+		st, ok := storevc.RunDeterminism(col, engines, p.name, p.p, p.v, maxLen, dl)
+		logs += st.Logs
+		runs += st.Runs
+		if !ok {
+			exhaustive = false
+		}
+		per[p.name] = map[string]interface{}{"logs": st.Logs, "runs": st.Runs, "max_len": maxLen, "complete": ok, "wall_s": time.Since(t0).Seconds()}
+		fmt.Printf("[C07] %s: logs=%d runs=%d complete=%v %.1fs\n", p.name, st.Logs, st.Runs, ok, time.Since(t0).Seconds())
+	}
+	col.Set("evaluations", runs)
+	col.Set("distinct_nontrivial", logs)
+	col.Set("exhaustive", exhaustive)
+	col.Set("per_policy", per)
+	col.Set("rule", "every command log up to the length bound from per-family pools (kv, hash, list, set, zset, bitmap, HyperLogLog, JSON, TTL) x 4 timestamp patterns (+1ns, +1s, +1s-1ns, second edges) x every chunking into apply batches x live/replaying x leader/follower (waiters registered or not) x wall-clock offset {0,+1e6 s,-1e6 s} (frozen virtual clock during apply) x engine {mem-skiplist, pebble}; compared with the canonical run (one entry per batch, live, leader, offset 0, mem-skiplist): replies per request, data read at two common virtual clocks, stored bytes within an engine. non-trivial = distinct logs")
+	for _, f := range storevc.Families() {
+		col.Sample(map[string]interface{}{"family": f.Name, "pool": f.Pool})
+	}
+	col.Assume = []string{"expiry scans of the local_deletion policy are not run here (the documented exception); they are C10's subject", "restart in the middle of a log (close + reopen) is exercised by C14 (restore + replay) and C06"}
+	return col.Finish()
 }
